@@ -100,6 +100,14 @@ theorem v6_max_payload_is_valid (ack : Nat) (tok : Option Token) (rr : Bool) (nc
   have h4 : Tw.Gen.Packet6.READ_PAYLOAD_LIMIT = 1397 := by decide
   split <;> omega
 
+/-- 0.6 vital chunk header, **every** three-byte pattern: re-packing or-s the two doubly stored sequence
+bits together (`[v.0, v.1 | ((v.2 & 0b1100_0000) >> 2), v.2 | ((v.1 & 0b0011_0000) << 2)]`, the
+normalisation documented in doc/packet.md and used by the crate's own quickcheck). -/
+theorem v6_chunkHeaderVital_pack_unpack_all (b0 b1 b2 : Nat) (h0 : b0 < 256) (h1 : b1 < 256) (h2 : b2 < 256) :
+    chunkHeaderVitalPack (chunkHeaderVitalUnpackWarn b0 b1 b2).1 =
+      some (b0, b1 ||| ((b2 &&& 192) >>> 2), b2 ||| ((b1 &&& 48) <<< 2)) :=
+  chv_pack_unpack_all b0 b1 b2 h0 h1 h2
+
 -- non-vacuity
 example : Tw.Packet6.Valid (.connected 1023 (some ⟨1, 2, 3, 4⟩) (.control (.close [0x62, 0x79, 0x65]))) := by
   refine ⟨by decide, by decide, ?_⟩
